@@ -3,6 +3,7 @@ package j2p
 import (
 	"encoding/json"
 	"fmt"
+	"math"
 	"strconv"
 	"sync"
 
@@ -350,11 +351,18 @@ func (self *visitorUserNode) OnInt64(v int64, n json.Number) error {
 	// cast int2float, int2double
 	case proto.FloatKind:
 		convertData := float32(v)
+		if v == 0 && len(n) > 0 && n[0] == '-' {
+			// the literal -0 arrives as integer 0: keep the sign of zero
+			convertData = float32(math.Copysign(0, -1))
+		}
 		if err = self.p.WriteFloat(convertData); err != nil {
 			return err
 		}
 	case proto.DoubleKind:
 		convertData := float64(v)
+		if v == 0 && len(n) > 0 && n[0] == '-' {
+			convertData = math.Copysign(0, -1)
+		}
 		if err = self.p.WriteDouble(convertData); err != nil {
 			return err
 		}
